@@ -14,7 +14,7 @@ from vf.taps.montap import montap
 
 LEVEL = "fault_enumeration"
 RULE = (
-    "fault enumeration: valid generated programs (a third of them with runs of statements moved into (nested) .include files) x 50 classes of definite error (invalid characters incl. NUL / DEL / non-ASCII, unterminated string, unknown keyword, "
+    "fault enumeration: valid generated programs (a third of them with runs of statements moved into (nested) .include files) x 53 classes of definite error (invalid characters incl. NUL / DEL / non-ASCII, unterminated string, unknown keyword, "
     "missing brace, a brace closed once too often, a macro defined only in a branch / loop that is not assembled or below its application, a byte that is no valid UTF-8 inside a source file (file entry points), a misspelled .map attribute, missing operand, undefined symbol in a sized operand / in data, undefined macro, too few macro arguments, undefined symbol in a macro argument the body never reads, in an unused `=` symbol, in `*=`, unsupported "
     "addressing mode, unsupported width, out-of-range branch, unmapped address, missing .include/.incbin/.table/.include_ips file) inserted "
     "at every statement position that is always expanded (thorough) or 6 positions (quick) x 5 entry points (string API, Program.assemble, "
@@ -74,6 +74,9 @@ FAULTS = {
     # a byte that is no valid UTF-8 in code position (written as U+E0FF here, replaced by the byte FF in the file): file entry points only
     "invalid_utf8_byte_in_a_number": ("bytes", ".dw 0x12\ue0ff34"),
     "invalid_utf8_byte_in_a_label": ("bytes", "d\ue0ffbut_zz9:\n.dw d\ue0ffbut_zz9"),
+    "branch_from_ram_to_another_bank": ("semantic", "other_zz9 = 0x7F2010\n@=0x7E2000\nbra other_zz9"),
+    "include_ips_delta_undefined": ("semantic", ".include_ips 'good_zz9.ips', 0 - undefined_zz9"),
+    "include_ips_delta_undefined_symbol_only": ("semantic", ".include_ips 'good_zz9.ips', undefined_zz9"),
     "extra_closing_braces_adjacent": ("syntax", "{\nnop\n}}"),
     "extra_closing_brace": ("syntax", "{\nnop\n}\n}"),
     "extra_closing_braces_after_scope": ("syntax", ".scope q9 {\nnop\n}}\nrts"),
@@ -187,6 +190,7 @@ def check_fault(res: Res, p: dict, name: str, where: tuple[list, int], entries: 
         src, files = materialise(p)
         files = dict(files)
         files["bad_zz9.ips"] = b"PATCX\x00\x00\x10\x00\x01\xaaEOF"
+        files["good_zz9.ips"] = b"PATCH\x00\x10\x00\x00\x02\xaa\xbbEOF"
     finally:
         del lst[i]
     for entry in entries:
@@ -221,7 +225,7 @@ def run_shard(shard: dict) -> Res:
             if FAULTS[name][0] == "bytes":
                 usable.append(name)
                 continue
-            r = assemble("*=0x008000\n" + fault_text(name, rom) + "\n", rom=rom, files={"bad_zz9.ips": b"PATCX\x00\x00\x10\x00\x01\xaaEOF"})
+            r = assemble("*=0x008000\n" + fault_text(name, rom) + "\n", rom=rom, files={"bad_zz9.ips": b"PATCX\x00\x00\x10\x00\x01\xaaEOF", "good_zz9.ips": b"PATCH\x00\x10\x00\x00\x02\xaa\xbbEOF"})
             if r.ok:
                 res.violate("error-not-detected", f"the in-memory API accepts a program consisting of the definite error `{name}`", {"src": "*=0x008000\n" + fault_text(name, rom) + "\n", "entry": "string", "rom": rom, "fault": name, "files": {}})
             else:
